@@ -183,8 +183,8 @@ EXPECTED = {
     'r2q': ['not base.isrot(R, check=check, tol=tol)', 'np.trace(R) > 0', 'R[0, 0] >= R[1, 1] and R[0, 0] >= R[2, 2]', 'R[1, 1] >= R[2, 2]',
             'v9', 'abs(v11) < tol * _eps'],
     'trinterp': ['base.ismatrix(end, (3, 3))', 'start is None', 'base.ismatrix(end, (4, 4))', 'start is None'],
-    'interp': ['dest is not None', 'assert isinstance(dest, UnitQuaternion)', 's == 0', 's == 1', 's == 0', 's == 1',
-               'assert 0 <= s <= 1', 'shortest', 'v2 < 0', 'v3 == 0'],
+    'interp': ['not base.isscalar(s)', 'dest is not None', 'assert isinstance(dest, UnitQuaternion)', 's == 0', 's == 1', 's == 0', 's == 1',
+               'assert 0 <= s <= 1', 'shortest', 'v3 < 0', 'v4 == 0'],
 }
 
 
@@ -199,20 +199,15 @@ EXPECTED_SIG = {
     # trinterp: its own range test on s (and the constants in it) is executed concolically (pc_trinterp_*), not fixed here: slerp checks the range too
     'trinterp': (['base.ismatrix(end, (3, 3))', 'base.ismatrix(end, (4, 4))', 'start is None'], None,
                  ['ValueError', 'base.eye', 'base.ismatrix', 'base.q2r', 'base.r2q', 'base.rt2tr', 'base.slerp', 'base.t2r', 'transl']),
-    'interp': (['0 <= s <= 1', '_v < 0', '_v == 0', 'assert 0 <= s <= 1', 'assert isinstance(dest, UnitQuaternion)', 'dest is not None', 's == 0', 's == 1', 'shortest'],
-               ['0', '1'], ['UnitQuaternion', 'base.eye', 'base.inner', 'float', 'isinstance', 'math.acos', 'math.cos', 'math.sin', 'np.clip']),
-}
-EXPECTED['isunitvec'] = []
-# accepted as well: UnitQuaternion.interp with /verif/proposed_fixes/C11/uq-interp-vector-s.diff applied -- a dispatch on `not base.isscalar(s)` in front of the
-# unchanged scalar path (which is what the model covers; the vector form is then verified by the oracle element by element)
-EXPECTED_SIG_ALT = {
+    # UnitQuaternion.interp since fix 51bc88a: a dispatch on `not base.isscalar(s)` (comprehension over the scalar path) in front of the scalar path,
+    # which is what the model covers; the sequence form is verified by the oracle element by element
     'interp': (['0 <= s <= 1', '_v < 0', '_v == 0', 'assert 0 <= s <= 1', 'assert isinstance(dest, UnitQuaternion)', 'dest is not None', 'not base.isscalar(s)',
                 's == 0', 's == 1', 'shortest'], ['0', '1'],
                ['UnitQuaternion', 'base.eye', 'base.getvector', 'base.inner', 'base.isscalar', 'float', 'isinstance', 'math.acos', 'math.cos', 'math.sin', 'np.clip',
                 'self.interp']),
 }
-EXPECTED_ALT = {'interp': ['not base.isscalar(s)', 'dest is not None', 'assert isinstance(dest, UnitQuaternion)', 's == 0', 's == 1', 's == 0', 's == 1',
-                           'assert 0 <= s <= 1', 'shortest', 'v3 < 0', 'v4 == 0']}
+EXPECTED['isunitvec'] = []
+EXPECTED_SIG_ALT, EXPECTED_ALT = {}, {}
 
 
 def consts_from_ast(ctx):
@@ -939,17 +934,33 @@ def oracle(ctx):
                     ctx.fail(f'oracle:vector-s:{cls}.interp', f"{cls}.interp(vector s) is not the sequence of the scalar results", rp)
                 else:
                     element_access(cls, Xv, d < 0, dict(rp, s=[float(x) for x in sv]), d)
+        if it % 3 == 0:
+            # UnitQuaternion.interp with a sequence of s (fix 51bc88a): one value per s, each equal to the scalar call, usable as a sequence;
+            # ndarray and list forms, with / without dest, shortest on / off
+            lq0, lq1 = base.r2q(R0), base.r2q(R1)
+            for form, sarg in (('ndarray', sv), ('list', [float(x) for x in sv])):
+                for sh in (False, True):
+                    for with_dest in (False, True):
+                        if not sh and with_dest and float(lq0 @ lq1) < -math.cos(GAP_MIN):
+                            continue           # quaternion-level long arc next to antipodal: outside the domain
+                        rq = dict(rp, s=[float(x) for x in sv], form=form, shortest=sh, dest=with_dest)
+                        ctx.case(('uq-vector-s', it, form, sh, with_dest))
+                        ctx.count('oracle:vector-s:UnitQuaternion.interp')
+                        kw = dict(dest=UnitQuaternion(lq1), shortest=sh) if with_dest else dict(shortest=sh)
+                        qq = UnitQuaternion(lq0) if with_dest else UnitQuaternion(lq1)
+                        try:
+                            Uv = qq.interp(sarg, **kw)
+                            if not (isinstance(Uv, UnitQuaternion) and len(Uv) == len(sv)):
+                                ctx.fail('oracle:vector-s:UnitQuaternion.interp:sequence-wrong-length', "UnitQuaternion.interp(sequence of s) does not give one value per s", rq)
+                            elif not all(np.max(np.abs(Uv.data[k_] - qq.interp(float(x_), **kw).vec)) <= 1e-9 for k_, x_ in enumerate(sv)):
+                                ctx.fail('oracle:vector-s:UnitQuaternion.interp:sequence-element-wrong', "UnitQuaternion.interp(sequence of s)[k] is not interp(s[k])", rq)
+                            elif not all(np.max(np.abs(Uv[k_].vec - Uv.data[k_])) <= 1e-12 for k_ in range(len(Uv))):   # indexing re-normalises: 1 ulp
+                                ctx.fail('oracle:vector-s:UnitQuaternion.interp:sequence-index-differs', "indexing the returned sequence does not give its k-th value", rq)
+                        except Exception as ex:  # noqa
+                            ctx.fail(f"oracle:vector-s:UnitQuaternion.interp:no-sequence:{type(ex).__name__}",
+                                     f"UnitQuaternion.interp(sequence of s, {form}) raises {type(ex).__name__}: {ex}", rq)
         if it % 10 == 0:
             lq1 = base.r2q(R1)
-            try:
-                Uv = UnitQuaternion(lq1).interp(sv)
-                if not (isinstance(Uv, UnitQuaternion) and len(Uv) == len(sv)):
-                    ctx.fail('oracle:vector-s:UnitQuaternion.interp:wrong-length', "UnitQuaternion.interp(vector s) does not give one value per s", rp)
-                elif not all(np.max(np.abs(Uv.data[k_] - UnitQuaternion(lq1).interp(float(x_)).vec)) <= 1e-9 for k_, x_ in enumerate(sv)):
-                    ctx.fail('oracle:vector-s:UnitQuaternion.interp:not-the-sequence', "UnitQuaternion.interp(vector s) is not the sequence of the scalar results", rp)
-            except Exception as ex:  # noqa
-                ctx.fail(f"oracle:vector-s:UnitQuaternion.interp:raises-{type(ex).__name__}",
-                         f"UnitQuaternion.interp(vector s) raises {type(ex).__name__}: {ex}", dict(rp, s=[float(x) for x in sv]))
             # out-of-range s is rejected by the 3-D matrix and quaternion interpolators
             so = float(S_OUTSIDE[(it // 10) % len(S_OUTSIDE)])
             ro = dict(rp, s=so.hex())
@@ -959,6 +970,7 @@ def oracle(ctx):
             must_raise('base.slerp(shortest)', lambda: base.slerp(base.r2q(R0), lq1, so, shortest=True), ro)
             must_raise('SE3.interp', lambda: SE3(T1, check=False).interp(so, start=SE3(T0, check=False)), ro)
             must_raise('UnitQuaternion.interp', lambda: UnitQuaternion(lq1).interp(so), ro)
+            must_raise('UnitQuaternion.interp(sequence)', lambda: UnitQuaternion(lq1).interp(np.array([0.5, so])), ro)
             must_raise('UnitQuaternion.interp(dest)', lambda: UnitQuaternion(base.r2q(R0)).interp(so, dest=UnitQuaternion(lq1)), ro)
             must_raise('base.trinterp(SO3)', lambda: base.trinterp(R0, R1, so), ro)
             must_raise('base.trinterp(SO3,start=None)', lambda: base.trinterp(None, R1, so), ro)
